@@ -143,7 +143,13 @@ impl<K: KemT> KemOps for KemAdapter<K> {
                 KeyKind::Private => {
                     let v = de::<K::PrivateKey>(b)?;
                     let w = de::<K::PrivateKey>(&v.to_bytes())?;
-                    v == w
+                    let fresh = v == w;
+                    // ... and the value still equals its re-deserialization after it has been USED (a key object that
+                    // caches something on first use is still the same key)
+                    let pk = K::sk_to_pk(&v);
+                    let _ = K::decap(&v, None, &de::<K::EncappedKey>(&pk.to_bytes())?);
+                    let w2 = de::<K::PrivateKey>(&v.to_bytes())?;
+                    fresh && v == w2 && w2 == v
                 }
                 KeyKind::Encapped => {
                     let v = de::<K::EncappedKey>(b)?;
